@@ -2173,7 +2173,8 @@ class SourceCatalog:
         else:
             xcen = self._xcentroid
             ycen = self._ycentroid
-            bkg = map_coordinates(self._background, (xcen, ycen), order=1,
+            # map_coordinates takes the coordinates in array-axis order
+            bkg = map_coordinates(self._background, (ycen, xcen), order=1,
                                   mode='nearest', output=float)
 
             mask = np.isfinite(xcen) & np.isfinite(ycen)
